@@ -1,7 +1,7 @@
 \* emission ("births", thorough): three objects of which two are created during the history, no time changes, one parameter -- loads of
 \* older snapshots followed by the creation of objects and further writes (the replay inserts a load before every step)
 CONSTANTS NObj = 3  NInit = 1  NLoc = 3  NPar = 1  NVal = 1  MaxC = 0  MaxN = 0  MaxSnaps = 2  MaxLevel = 5
-CONSTANT Labels <- McLabels
+CONSTANT Labels <- McLabelsB
 ACTION_CONSTRAINT Emit
 INVARIANT EmitState
 INIT Init
